@@ -17,6 +17,7 @@ structure Case where
   mgr : Mgr Nat
   cache : List (Nat × Obs)
   ops : List (Op Nat)
+  racing : Bool := false
 
 def parseCase (i : Json) : Except String Case := do
   let cond := if (← jint i "cond") == 0 then Cond.allCurrent else Cond.allNotFound
@@ -39,10 +40,14 @@ def parseCase (i : Json) : Except String Case := do
   let ops ← opsJ.mapM (fun op => do
     let a ← op.getArr?
     match (← a[0]!.getStr?) with
-    | "u" => return Op.update (← a[1]!.getNat?) (← obsOfJson a[2]!)
-    | "t" => return Op.timeout
-    | _ => return Op.cancel)
-  return { cond := cond, n := objs.length, mgr := mgr, cache := cache, ops := ops }
+    | "u" => return [Op.update (← a[1]!.getNat?) (← obsOfJson a[2]!)]
+    | "t" => return [Op.timeout]
+    -- ["tu", k, i, obs]: a status update for object i arrives while the Timeout events are being delivered (after the
+    -- k-th); the pending set is locked for the whole delivery, so it is the deadline followed by the update
+    | "tu" => return [Op.timeout, Op.update (← a[2]!.getNat?) (← obsOfJson a[3]!)]
+    | _ => return [Op.cancel])
+  return { cond := cond, n := objs.length, mgr := mgr, cache := cache, ops := ops.flatten,
+           racing := opsJ.any (fun op => match op.getArr? with | .ok a => a[0]! == Json.str "tu" | _ => false) }
 
 def evsJson (l : List (Nat × WEv)) : Json := Json.arr (l.map (fun (i, e) => Json.arr #[(i : Int), evN e])).toArray
 
@@ -178,7 +183,7 @@ def handleWait : Handler := fun i o => do
     | .ok l => l.map (fun e => s!"wait:start-ev{e.2}")
     | .error _ => []
   return { model := m, agree := m == o, spec := spec, specModel := specM, nontrivial := c.ops.length ≥ 1, note := why,
-           tags := (kinds ++ evKinds).eraseDups ++ [s!"wait:objs{c.n}", if c.cond = .allCurrent then "wait:AllCurrent" else "wait:AllNotFound"],
+           tags := (kinds ++ evKinds).eraseDups ++ (if c.racing then ["wait:update-during-timeout-delivery"] else []) ++ [s!"wait:objs{c.n}", if c.cond = .allCurrent then "wait:AllCurrent" else "wait:AllNotFound"],
            region := none }
 
 end CliUtils.Drv.C06
